@@ -87,7 +87,29 @@ def gen_tree():
     return files, langs
 
 
-ODD_LANGS = ["xx", "xx-yy", "en-us", "en-GB", "es-mx", "es-419", "zh-cn", "fr", "de-ch", "zz-ab", "sv-fi", "vi-vn", "EN", "id-id"]
+def gen_unicode_entries():
+    """Gen/UnicodeEntries.v: per language Unicode file, (first code point of the key, speaks under every condition)"""
+    ops, names = [], []
+    base = os.path.join(C.RULES, "Languages")
+    for root, _, files in sorted(os.walk(base)):
+        for f in sorted(files):
+            if f in ("unicode.yaml", "unicode-full.yaml") and os.sep + "zz" not in root:
+                ops.append(["h_unicode_entries", os.path.join(root, f)])
+                names.append(os.path.relpath(os.path.join(root, f), base))
+    r = C.one_session(ops)["res"]
+    items, total = [], 0
+    for nm, x in zip(names, r):
+        ents = x.get("ok")
+        if ents is None:
+            raise RuntimeError("cannot read %s: %s" % (nm, x))
+        total += len(ents)
+        items.append("(%s, [%s])" % (cstr(nm), "; ".join("(%d, %s)" % (ord(k[0]), "true" if s else "false") for k, s in ents if k)))
+    body = HEADER + "From MC Require Import Lib.Base.\nDefinition unicode_entries : list (str * list (N * bool)) := " + clist(items) + ".\n"
+    C.write_if_changed(os.path.join(C.GEN, "UnicodeEntries.v"), body)
+    return total
+
+
+ODD_LANGS = ["xx", "xx-yy", "en-us", "en-GB", "es-mx", "es-419", "zh-cn", "fr", "de-ch", "sv-fi", "vi-vn", "EN", "id-id"]
 ODD_STYLES = ["Foo", "clearspeak"]
 ODD_CODES = ["Braille9", "nemeth", "UEB2"]
 
@@ -125,6 +147,7 @@ def generate(res):
     if not ok:
         raise RuntimeError("harness build failed: " + log)
     gen_tree()
+    n_entries = gen_unicode_entries()
     sessions, meta = tie_sessions()
     out = C.run_harness(sessions)
     items = []
@@ -145,6 +168,7 @@ def generate(res):
     C.write_if_changed(os.path.join(C.GEN, "C15Obs.v"), body)
     if res is not None:
         res.extra["tie_cases"] = len(items)
+        res.extra["unicode_entries_checked"] = n_entries
     return meta, out
 
 
@@ -193,17 +217,47 @@ def rule_tags():
     return sorted(tags)
 
 
+def english_arities():
+    """for every intent tag: the numbers of children the English rules for it are written for -- the `count(*)=N`
+    tests of their match conditions, else the largest child index `*[k]` they use"""
+    import re
+    counts, maxidx = {}, {}
+    en = os.path.join(C.RULES, "Languages", "en")
+    files = [os.path.join(en, f) for f in os.listdir(en) if f.endswith("_Rules.yaml")] + \
+            [os.path.join(en, "SharedRules", f) for f in os.listdir(os.path.join(en, "SharedRules"))]
+    for p in files:
+        blocks = re.split(r"(?m)^-\s*\n?\s*name:", open(p, encoding="utf-8").read())
+        for blk in blocks[1:]:
+            m = re.search(r"(?m)^\s*tag:\s*(.*?)\s*(#.*)?$", blk)
+            if not m:
+                continue
+            tags = [x.strip("\"'") for x in re.split(r"[,\[\]\s]+", m.group(1)) if x.strip("\"'")]
+            mm = re.search(r"(?m)^\s*match:(.*(?:\n\s+-.*)*)", blk)
+            cs = [int(x) for x in re.findall(r"count\(\*\)\s*=\s*(\d)", mm.group(1))] if mm else []
+            ks = [int(x) for x in re.findall(r"\*\[(\d)\]", blk)]
+            for tg in tags:
+                counts.setdefault(tg, set()).update(cs)
+                if ks:
+                    maxidx[tg] = max(maxidx.get(tg, 0), max(ks))
+    out = {}
+    for tg in set(counts) | set(maxidx):
+        out[tg] = sorted(counts[tg]) if counts.get(tg) else ([maxidx[tg]] if maxidx.get(tg) else [1])
+    return out
+
+
 def intent_corpus():
+    """one expression per intent tag of the rule files and per number of children the English rules expect for it"""
     out = []
-    args = [("a", "<mi arg='a'>x</mi>"), ("b", "<mn arg='b'>2</mn>"), ("c", "<mi arg='c'>y</mi>")]
+    kids = [("a", "<mi arg='a'>x</mi>"), ("b", "<mn arg='b'>2</mn>"), ("c", "<mi arg='c'>y</mi>"), ("d", "<mi arg='d'>z</mi>"), ("e", "<mn arg='e'>5</mn>")]
+    ar = english_arities()
+    elements = {"mi", "mn", "mo", "mtext", "ms", "mrow", "mfrac", "msqrt", "mroot", "mstyle", "msub", "msup", "msubsup", "munder", "mover", "munderover",
+                "mmultiscripts", "mtable", "mtr", "mlabeledtr", "mtd", "menclose", "semantics", "math"}
     for t in rule_tags():
-        if t in NOT_INTENT_TAGS or t.startswith("m") and t in ("mi", "mn", "mo", "mtext", "ms", "mrow", "mfrac", "msqrt", "mroot", "mstyle", "msub", "msup", "msubsup",
-                                                             "munder", "mover", "munderover", "mmultiscripts", "mtable", "mtr", "mlabeledtr", "mtd", "menclose"):
+        if t in NOT_INTENT_TAGS or t in elements:
             continue
-        if t == "semantics":
-            continue
-        for n in (1, 2, 3):
-            out.append("<mrow intent='%s(%s)'>%s</mrow>" % (t, ",".join("$" + a for a, _ in args[:n]), "<mo>&#x2063;</mo>".join(x for _, x in args[:n])))
+        for n in ar.get(t, [1, 2]):
+            if 1 <= n <= 5:
+                out.append("<mrow intent='%s(%s)'>%s</mrow>" % (t, ",".join("$" + a for a, _ in kids[:n]), "<mo>&#x2063;</mo>".join(x for _, x in kids[:n])))
     return out
 
 
@@ -227,66 +281,205 @@ def configurations(res):
     return speech, codes
 
 
+def block(kind, body):
+    if kind == "braille":
+        return [["set_mathml", X.math(body)], ["get_braille", ""], ["do_navigate_command", "ZoomIn"], ["get_navigation_braille"]]
+    return [["set_mathml", X.math(body)], ["get_spoken_text"], ["get_overview_text"]] + NAV_STEPS
+
+
+def prefs_of(kind, cfg):
+    if kind == "braille":
+        return [["set_rules_dir", C.RULES], ["set_preference", "BrailleCode", cfg]]
+    if kind == "name":
+        return [["set_rules_dir", C.RULES], ["set_preference", "Language", cfg]]
+    l, s, v = cfg
+    return [["set_rules_dir", C.RULES], ["set_preference", "Language", l], ["set_preference", "SpeechStyle", s], ["set_preference", "Verbosity", v]]
+
+
+def verdicts(kind, cfg, bodies):
+    """per expression: None (fine) or (op, result) of the first call that fails (error, panic, crash, empty output)"""
+    pre = prefs_of(kind, cfg)
+    ops = list(pre)
+    for b in bodies:
+        ops += block(kind, b)
+    return pre, ops
+
+
+def judge(kind, pre, ops, rr, bodies):
+    n = len(block(kind, bodies[0]))
+    out = []
+    for op, x in zip(pre, rr[:len(pre)]):
+        if "ok" not in x:
+            return [(op, x)] * len(bodies)
+    for i, b in enumerate(bodies):
+        bad = None
+        for op, x in zip(ops[len(pre) + i * n:len(pre) + (i + 1) * n], rr[len(pre) + i * n:len(pre) + (i + 1) * n]):
+            empty = "ok" in x and op[0] in ("get_spoken_text", "get_braille", "get_overview_text") and isinstance(x["ok"], str) and x["ok"].strip() == ""
+            if "ok" not in x or empty:
+                bad = (op, x if not empty else {"empty": True})
+                break
+        out.append(bad)
+    return out
+
+
 def oracle(res):
     speech, codes = configurations(res)
     tier = res.tier if res else "quick"
     rng = random.Random((res.seed if res else 1) * 733 + 15)
-    bodies = list(X.FIXED) + ELEMENTS + intent_corpus() + [X.gen(rng, 3, kinds=X.MORE_KINDS) for _ in range(20 if tier == "quick" else 200)]
+    plain = list(X.FIXED) + [e for e in ELEMENTS if "<maction" not in e]
+    synthetic = intent_corpus() + [X.gen(rng, 3, kinds=X.MORE_KINDS) for _ in range(20 if tier == "quick" else 200)]
     if tier == "quick":
-        keep = list(X.FIXED) + ELEMENTS
-        rest = [b for b in bodies if b not in keep]
-        rng.shuffle(rest)
-        per_config = lambda: keep + rest[:60]
-    else:
-        per_config = lambda: bodies
-    sessions, meta = [], []
-    for l, s, v in speech:
-        ops = [["set_rules_dir", C.RULES], ["set_preference", "Language", l], ["set_preference", "SpeechStyle", s], ["set_preference", "Verbosity", v]]
-        for b in per_config():
-            ops += [["set_mathml", X.math(b)], ["get_spoken_text"], ["get_overview_text"]] + NAV_STEPS
+        rng.shuffle(synthetic)
+        synthetic = synthetic[:70]
+    bodies = plain + synthetic
+    configs = [("speech", c) for c in speech] + [("braille", c) for c in codes] + [("name", l) for l in ODD_LANGS]
+    # the references the synthetic expressions are judged against: English in the same style and verbosity; Nemeth and UEB
+    refs = sorted(set(("speech", ("en", s, v)) for _, s, v in speech)) + [("braille", "Nemeth"), ("braille", "UEB")]
+    todo = configs + [r for r in refs if r not in configs]
+    sessions, built = [], []
+    for kind, cfg in todo:
+        use = bodies if kind != "name" else plain[:8]
+        pre, ops = verdicts(kind, cfg, use)
         sessions.append({"id": len(sessions), "ops": ops})
-        meta.append(("speech", (l, s, v)))
-    for c in codes:
-        ops = [["set_rules_dir", C.RULES], ["set_preference", "BrailleCode", c]]
-        for b in per_config():
-            ops += [["set_mathml", X.math(b)], ["get_braille", ""], ["do_navigate_command", "ZoomIn"], ["get_navigation_braille"]]
-        sessions.append({"id": len(sessions), "ops": ops})
-        meta.append(("braille", c))
-    # names: regional, unknown, oddly written -- selecting them must not fail, and they must speak
-    for l in ODD_LANGS:
-        ops = [["set_rules_dir", C.RULES], ["set_preference", "Language", l]]
-        for b in X.FIXED[:6]:
-            ops += [["set_mathml", X.math(b)], ["get_spoken_text"], ["get_overview_text"]] + NAV_STEPS
-        sessions.append({"id": len(sessions), "ops": ops})
-        meta.append(("name", l))
-    out = C.run_harness(sessions, timeout=3000)
-    found = 0
-    kf = {k["id"]: k for k in C.known_findings("C15")}
-    for (kind, cfg), sess, r in zip(meta, sessions, out):
+        built.append((kind, cfg, pre, ops, use))
+    out = C.run_harness_isolating(sessions, timeout=3000)
+    table = {}
+    for (kind, cfg, pre, ops, use), r in zip(built, out):
         rr = r.get("res") or []
-        ops = sess["ops"]
         if len(rr) != len(ops):
-            found += 1
-            res.violation("the session for %s %s did not complete (crash / abort)" % (kind, cfg), {"kind": "config", "ops": ops[:4]})
-            continue
-        current = None
-        bad = None
-        for op, x in zip(ops, rr):
-            if op[0] == "set_mathml":
-                current = op[1]
-            res_ok = "ok" in x
-            empty = res_ok and op[0] in ("get_spoken_text", "get_braille", "get_overview_text") and isinstance(x["ok"], str) and x["ok"].strip() == ""
-            if not res_ok or empty:
-                bad = (op, x, current)
-                break
+            # the process died: find the expression that kills it
+            per = C.run_harness_isolating([{"id": i, "ops": pre + block(kind, b)} for i, b in enumerate(use)], timeout=3000)
+            v = []
+            for b, one in zip(use, per):
+                r1 = one.get("res") or []
+                if len(r1) != len(pre) + len(block(kind, b)):
+                    v.append((["set_mathml", X.math(b)], {"crash": one.get("crash", "timeout")}))
+                else:
+                    v.append(judge(kind, pre, pre + block(kind, b), r1, [b])[0])
+            table[(kind, str(cfg))] = v
+        else:
+            table[(kind, str(cfg))] = judge(kind, pre, ops, rr, use)
+    found = 0
+    skipped = 0
+    for kind, cfg in configs:
+        v = table[(kind, str(cfg))]
+        use = bodies if kind != "name" else plain[:8]
         res.add_case("%s %s" % (kind, cfg), True, "%s %s" % (kind, cfg if isinstance(cfg, str) else "/".join(cfg)))
-        if bad:
-            op, x, current = bad
+        res.evaluations += len(use) - 1            # one evaluation per configuration and expression
+        for i, (b, bad) in enumerate(zip(use, v)):
+            if bad is None:
+                continue
+            op, x = bad
+            fatal = "panic" in x or "crash" in x
+            if i >= len(plain) and not fatal:
+                # a synthetic expression: judged against the reference configuration(s)
+                if kind == "speech":
+                    ref_bad = table[("speech", str(("en", cfg[1], cfg[2])))][i] is not None
+                else:
+                    ref_bad = table[("braille", "Nemeth")][i] is not None or table[("braille", "UEB")][i] is not None
+                if ref_bad:
+                    skipped += 1
+                    continue
+            if kind == "name" and cfg.split("-")[0] in empty_language_dirs() and KF_ZH in {k["id"] for k in C.known_findings("C15")}:
+                res.known("%s: Language=%s" % (KF_ZH, cfg))
+                break
             found += 1
-            what = "panic " + x["panic"][:150] if "panic" in x else ("error " + x.get("err", "")[:300].replace("\n", " | ") if "err" in x else "empty result")
-            res.violation("%s %s: %s gives %s (expression %s)" % (kind, cfg, " ".join(str(a) for a in op[:2])[:60], what, (current or "")[:200]),
-                          {"kind": "config", "config": [kind, cfg], "prefs": [o for o in ops[:4]], "expr": current, "op": op})
+            what = ("panic " + x["panic"][:150]) if "panic" in x else ("the process dies (%s)" % x["crash"]) if "crash" in x else \
+                ("error " + x.get("err", "")[-300:].replace("\n", " | ")) if "err" in x else "empty result"
+            res.violation("%s %s: %s gives %s (expression %s)" % (kind, cfg, " ".join(str(a) for a in op[:2])[:60], what, b[:200]),
+                          {"kind": "config", "config": [kind, cfg], "expr": b, "op": op})
+            break
         if found >= 5:
             break
-    res.extra["configurations"] = {"speech": len(speech), "braille": len(codes), "names": len(ODD_LANGS), "expressions_per_configuration": len(per_config())}
+    res.extra["configurations"] = {"speech": len(speech), "braille": len(codes), "names": len(ODD_LANGS), "plain_expressions": len(plain),
+                                   "synthetic_expressions": len(synthetic), "synthetic_rejected_by_the_reference_too": skipped}
     return found
+
+
+KF_ZH = "language-directory-without-rules"
+KF_HYPHEN = "hyphenated-braille-code-not-selectable"
+
+
+def empty_language_dirs():
+    base = os.path.join(C.RULES, "Languages")
+    return [l for l in language_dirs() if not any(f.endswith(".yaml") for f in os.listdir(os.path.join(base, l)))]
+
+
+def known_witnesses(res):
+    kf = {k["id"] for k in C.known_findings("C15")}
+    for l in empty_language_dirs():
+        r = C.one_session([["set_preference", "Language", l]])["res"][0]
+        if "err" in r:
+            if KF_ZH in kf:
+                res.known("%s: set_preference(Language, %s) fails: %s" % (KF_ZH, l, r["err"].strip()[:100]))
+            else:
+                res.violation("set_preference(Language, %s) fails although Rules/Languages/%s ships: %s" % (l, l, r["err"][:200]),
+                              {"kind": "select", "prefs": [["set_preference", "Language", l]]})
+    for c in shipped_codes():
+        if "-" not in c:
+            continue
+        r = C.one_session([["set_preference", "BrailleCode", c], ["v_prefs_files"]])["res"]
+        files = dict(r[1].get("ok") or [])
+        own = os.path.join(C.RULES, "Braille", c) + os.sep
+        if "ok" in r[0] and not files.get("braille", "").startswith(own):
+            if KF_HYPHEN in kf:
+                res.known("%s: BrailleCode=%s is served from %s" % (KF_HYPHEN, c, os.path.relpath(os.path.dirname(files.get("braille", "")), C.RULES)))
+            else:
+                res.violation("BrailleCode=%s is served from %s, not from its own directory" % (c, files.get("braille")),
+                              {"kind": "select", "prefs": [["set_preference", "BrailleCode", c]]})
+
+
+def run(res):
+    res.rule = ("every shipped language / region (zz test fixtures excluded) x {ClearSpeak, SimpleSpeak} x {Terse, Medium, Verbose} (quick: one seeded verbosity per "
+                "language and style), every shipped braille code, 13 regional / unknown / oddly written language names; corpus: 25 textbook expressions, 20 "
+                "expressions over the remaining element kinds, chemistry, units, intervals, geometry, calculus, one synthetic expression per intent tag of the rule files "
+                "and per number of children the English rules expect for it, seeded generator expressions; per expression: set_mathml, speech, overview, five "
+                "navigation steps / braille, navigation braille; plain expressions must work outright, synthetic ones wherever the reference configuration "
+                "(English in the same style and verbosity; Nemeth and UEB) accepts them")
+    generate(res)
+
+    def on_broken(log):
+        return oracle(res) > 0
+    proved = C.check_proofs(res, "C15", ["Props/C15.vo", "Tie/C15Tie.vo"], "Props/C15.v", search=on_broken)
+    known_witnesses(res)
+    if proved:
+        oracle(res)
+    res.trusted += ["hook prefs::verif::files (the rule files the preference manager has located)",
+                    "harness h_unicode_entries: the structural analysis of the Unicode rule files with the library's YAML parser crate (an entry speaks if some item is a "
+                    "text / xpath / spell item or a test all of whose branches exist and speak)",
+                    "python listing of /repo/Rules (os.walk) and the split of reported paths into components"]
+    res.assumptions += ["what a located rule file does when its rules fire (xpath evaluation, rule matching) is the library's and is decided by the oracle over the corpus, not proved",
+                        "the Languages/zz and zz/aa test fixtures are excluded from the oracle (they are deliberately incomplete); they are part of the file-location tie",
+                        "zip archives are not modelled: the shipped tree has none (generated obligation no_zip)",
+                        "a synthetic intent expression that the English rules reject as well is not judged (wrong number of children for that intent)"]
+
+
+def replay(path):
+    rep = json.load(open(path, encoding="utf-8"))
+    ok, log = C.build_harness()
+    if not ok:
+        print("harness build failed", log)
+        return 2
+    if rep.get("kind") == "config":
+        kind, cfg = rep["config"]
+        cfg = tuple(cfg) if isinstance(cfg, list) else cfg
+        pre = prefs_of(kind, cfg)
+        ops = pre + block(kind, rep["expr"])
+        r = C.run_harness_isolating([{"id": 0, "ops": ops}])[0]
+        rr = r.get("res") or []
+        if len(rr) != len(ops):
+            print("FAILS: the process dies")
+            return 1
+        bad = judge(kind, pre, ops, rr, [rep["expr"]])[0]
+        if bad:
+            print("FAILS:", bad[0][:2], str(bad[1])[:300])
+            return 1
+        print("the recorded configuration and expression now work")
+        return 0
+    if rep.get("kind") == "select":
+        r = C.one_session(rep["prefs"])["res"]
+        bad = [x for x in r if "ok" not in x]
+        print("FAILS: " + str(bad[0])[:200] if bad else "selection works")
+        return 1 if bad else 0
+    print("replay names a broken obligation, not an input:", rep.get("what"))
+    return 1
